@@ -68,6 +68,54 @@ POOL = (list("abcxyzAZ 09.,;") + list("\\{}$&%#_^~") + ["é", "ü", "ǘ", "Å", 
         "̈́", "ཱི", "ẛ", "ơ", "̀", "̣"])
 
 
+def record_pair(text, out):
+    """Same record as record(), for a text observed elsewhere than at uni2tex's return: `out` is what a TikZ label shows."""
+    rec = {"in": [annotate(c) for c in text], "out": [ord(c) for c in out], "err": "", "tab": []}
+    rec["tab"] = table(set(ord(c) for c in text) | set(rec["out"]))
+    return rec
+
+
+def export_records(rng, n):
+    """The second observation point of C19: the \\def\\text.. lines of TimelineTex.export(), resolved through the macro each
+    label box uses.  A datum without text must show no text; every other datum must show the TeX form of ITS OWN text."""
+    import datetime as dt
+    from labella.timeline import TimelineTex
+    from d_timeline import parse_tex
+    recs = []
+    for _ in range(n):
+        data = []
+        for i in range(rng.randint(2, 7)):
+            d = {"time": dt.datetime(2001, 1, 1) + dt.timedelta(days=rng.randint(0, 400), hours=i), "width": rng.choice([20, 40, 60])}
+            r = rng.random()
+            if r < 0.6:
+                t = "".join(rng.choice(POOL) for _ in range(rng.randint(1, 8))).replace("\\", "\\ ")
+                d["text"] = t if t.strip() else "t"
+            elif r < 0.75:
+                d["text"] = ""
+            data.append(d)
+        try:
+            tl = TimelineTex(data, {"direction": rng.choice(["up", "down", "left", "right"])})
+            doc = tl.export()
+            if isinstance(doc, bytes):
+                doc = doc.decode("utf-8")
+            P = parse_tex(doc)
+            shown = [b["text"] or "" for b in P["boxes"]]
+            texts = [(nd.data.text or "") for nd in tl.nodes]
+        except Exception as ex:
+            rec = record_pair("", "")
+            rec["err"] = "export:" + type(ex).__name__
+            recs.append(rec)
+            continue
+        if len(shown) != len(texts):
+            rec = record_pair("", "")
+            rec["err"] = "export:boxes"
+            recs.append(rec)
+            continue
+        for t, o in zip(texts, shown):
+            recs.append(record_pair(t, o))
+    return recs
+
+
 def main():
     job = json.load(sys.stdin)
     rng = random.Random(job.get("seed", 0))
@@ -126,6 +174,8 @@ def main():
         text = "".join(rng.choice(POOL) for _ in range(n))
         # literal "\<accent>{" sequences in the INPUT would be read back as accents: not generated
         recs.append(record(text.replace("\\", "\\ ")))
+    if job.get("export"):
+        recs += export_records(rng, job["export"])
     for t in job.get("texts", []):
         recs.append(record(t))
     json.dump({"records": recs}, sys.stdout)
